@@ -311,7 +311,7 @@ func schedFilter(level int) func(string) bool {
 	if level == 0 {
 		return nil
 	}
-	return func(op string) bool { return op != "a.ctr" }
+	return func(op string) bool { return op != "a.ctr" && op != "a.ctr.load" }
 }
 
 type schedReplay struct {
@@ -346,6 +346,7 @@ type schedStats struct {
 	Viol        []*vr.Violation  `json:"viol"`
 	Capped      bool             `json:"capped"`
 	Wall        float64          `json:"wall_s"`
+	Pruned      int64            `json:"pruned_independent_points"`
 }
 
 // schedExplore is the iterative-context-bounding DFS (shard: only top-level alternatives with
@@ -355,7 +356,7 @@ func schedExplore(t *testing.T, sc *schedScenario, bound, filterLevel, shard, ns
 	filter := schedFilter(filterLevel)
 	names := []string{}
 	vio := map[string]*vr.Violation{}
-	record := func(key, what string, x schedExec) {
+	record2 := func(key, what string, x schedExec) {
 		if v, ok := vio[key]; ok {
 			v.Count++
 			return
@@ -369,45 +370,60 @@ func schedExplore(t *testing.T, sc *schedScenario, bound, filterLevel, shard, ns
 		vio[key] = v
 		st.Viol = append(st.Viol, v)
 	}
+	// Sharding: the alternatives of a node are dealt out to the shards round-robin. An alternative
+	// that costs no preemption (a forced switch, or the choice of who starts) opens a subtree as big
+	// as the one it belongs to, so EVERY shard descends into it (re-running that one execution) and
+	// the dealing-out continues inside it; a preempting alternative is owned by exactly one shard.
 	top := 0
-	var explore func(prefix []int, depth int)
-	explore = func(prefix []int, depth int) {
+	var explore func(prefix []int, shardHere bool, record bool)
+	explore = func(prefix []int, shardHere bool, record bool) {
 		if time.Now().After(deadline) {
 			st.Capped = true
 			return
 		}
 		x := schedRunOne(t, sc, prefix, filter)
-		st.Executions++
-		if len(x.Points) > st.MaxPoints {
-			st.MaxPoints = len(x.Points)
-		}
 		if len(names) == 0 {
-			// thread names in id order: rebuild from a throw-away scheduler is not possible here;
-			// the scenario's Setup order defines them
 			for i := 0; i < 8; i++ {
 				names = append(names, fmt.Sprintf("T%d", i))
 			}
 		}
-		st.Preemptions[sched.PreemptionsBefore(x.Points, len(x.Points))]++
 		if x.Diverged != "" {
 			panic("ENGINE-ERROR replay divergence: " + x.Diverged)
 		}
-		if x.CapHit {
-			st.Capped = true
+		if record {
+			st.Executions++
+			if len(x.Points) > st.MaxPoints {
+				st.MaxPoints = len(x.Points)
+			}
+			st.Preemptions[sched.PreemptionsBefore(x.Points, len(x.Points))]++
+			if x.CapHit {
+				st.Capped = true
+			}
+			if x.Deadlock != "" {
+				record2("deadlock:"+sc.Name, "deadlock: unfinished threads "+x.Deadlock, x)
+			}
+			for _, p := range x.Panics {
+				record2("panic:"+sc.Name+":"+simCrashSite(p), "panic in a thread: "+simTail(p, 2500), x)
+			}
+			for _, v := range x.Viol {
+				record2(v.Key, v.What, x)
+			}
+			st.Outcomes[fmt.Sprintf("%x", fnvHash(x.Outcome))]++
 		}
-		if x.Deadlock != "" {
-			record("deadlock:"+sc.Name, "deadlock: unfinished threads "+x.Deadlock, x)
-		}
-		for _, p := range x.Panics {
-			record("panic:"+sc.Name+":"+simCrashSite(p), "panic in a thread: "+simTail(p, 2500), x)
-		}
-		for _, v := range x.Viol {
-			record(v.Key, v.What, x)
-		}
-		h := fmt.Sprintf("%x", fnvHash(x.Outcome))
-		st.Outcomes[h]++
+		// Partial-order reduction: a preemption right before an operation on an object that no other
+		// thread accesses conflictingly in this execution only reorders independent operations (the
+		// same final state is reached by preempting at the thread's next conflicting operation
+		// instead), so alternatives are only taken at operations on objects that, in this execution,
+		// are shared by two threads with at least one writing access.
+		conflicts := sched.ConflictObjects(x.Points)
 		for i := len(prefix); i < len(x.Points); i++ {
 			p := x.Points[i]
+			if p.RunOK && p.Obj != 0 && !conflicts[p.Obj] {
+				if record {
+					st.Pruned++
+				}
+				continue
+			}
 			cost := sched.PreemptionsBefore(x.Points, i)
 			if p.RunOK {
 				cost++
@@ -416,23 +432,28 @@ func schedExplore(t *testing.T, sc *schedScenario, bound, filterLevel, shard, ns
 				continue
 			}
 			for alt := 1; alt < len(p.Enabled); alt++ {
-				if depth == 0 {
-					top++
-					if top%nshards != shard {
-						continue
-					}
-				}
 				np := make([]int, i+1)
 				for j := 0; j < i; j++ {
 					np[j] = x.Points[j].Chosen
 				}
 				np[i] = alt
-				explore(np, depth+1)
+				if !shardHere {
+					explore(np, false, true)
+					continue
+				}
+				top++
+				mine := top%nshards == shard
+				if !p.RunOK {
+					// free alternative: everybody descends, only the owner records the node itself
+					explore(np, true, mine)
+				} else if mine {
+					explore(np, false, true)
+				}
 			}
 		}
 	}
 	start := time.Now()
-	explore(nil, 0)
+	explore(nil, true, shard == 0)
 	st.Wall = time.Since(start).Seconds()
 	return st
 }
@@ -535,6 +556,11 @@ func schedExploreSharded(t *testing.T, r *vr.Report, name string, bound, filter 
 		}
 		if st.Capped {
 			r.Cap(fmt.Sprintf("%s: budget %s reached in shard %d (bound %d not completed)", name, budget, i, bound))
+		}
+		if v, ok := r.Extra[name+".pruned_independent_points"].(int64); ok {
+			r.Extra[name+".pruned_independent_points"] = v + st.Pruned
+		} else {
+			r.Extra[name+".pruned_independent_points"] = st.Pruned
 		}
 		if mp, ok := r.Bounds[name+".max_points"].(int); !ok || st.MaxPoints > mp {
 			r.Bounds[name+".max_points"] = st.MaxPoints
